@@ -599,3 +599,86 @@ def boundary_module(rng, quick=True):
                                                [("ctx", 0), ("ctx", 31), ("app", 5), ("priv", 6), ("ctx", 127), ("ctx", 128), ("ctx", 16384), ("app", 16383)]])))
     vals["BTagC"] = [(f"c{n}", None) for n in (0, 31, 5, 6, 127, 128, 16384, 16383)]
     return {"name": "BND", "tagdefault": "IMPLICIT", "types": types}, vals
+
+# ------------------------------------------------------------------ Lean-side renderings (L2 model)
+def _tag_sx(t):
+    tg = t.get("tag")
+    if not tg: return "-"
+    return "(%s %d %s)" % (tg[0], tg[1], {"": "d", "IMPLICIT": "i", "EXPLICIT": "e"}[tg[2]])
+
+def _cons_sx(c):
+    if c is None: return "-"
+    return "(%s %s %d)" % ("MIN" if c["lo"] is None else c["lo"], "MAX" if c["hi"] is None else c["hi"], 1 if c["ext"] else 0)
+
+def ty_sexp(t, env):
+    k = t["k"]; tg = _tag_sx(t)
+    if k == "REF": return f"(REF {tg} {t['name']})"
+    if k in ("BOOLEAN", "NULL", "REAL", "UTCTime", "GeneralizedTime"): return f"({k} {tg})"
+    if k == "OBJECT IDENTIFIER": return f"(OID {tg})"
+    if k == "RELATIVE-OID": return f"(ROID {tg})"
+    if k == "INTEGER": return f"(INTEGER {tg} {_cons_sx(t.get('cons'))})"
+    if k == "ENUMERATED":
+        root, extv = enum_values(t)
+        return "(ENUMERATED %s (%s) %s)" % (tg, " ".join(map(str, root)), "-" if t.get("ext") is None else "(" + " ".join(map(str, extv)) + ")")
+    if k == "BIT STRING": return f"(BITSTRING {tg} {_cons_sx(t.get('size'))})"
+    if k == "OCTET STRING": return f"(OCTETSTRING {tg} {_cons_sx(t.get('size'))})"
+    if k in STRING_KINDS:
+        al = "-"
+        if t.get("alpha"):
+            cs = []
+            for a in t["alpha"]:
+                if isinstance(a, tuple): cs += list(range(ord(a[0]), ord(a[1]) + 1))
+                else: cs.append(ord(a))
+            al = "(" + " ".join(map(str, sorted(set(cs)))) + ")"
+        return f"(STR {k} {tg} {_cons_sx(t.get('size'))} {al})"
+    if k in ("SEQUENCE", "SET", "CHOICE"):
+        comps = []
+        for c in t["comps"]:
+            o = c.get("opt")
+            if k == "CHOICE": comps.append(f"({c['id']} {ty_sexp(c['type'], env)})")
+            else:
+                osx = "m" if o is None else ("o" if o == "OPTIONAL" else "(d %s)" % val_pos_sexp(c["type"], o[2], env))
+                comps.append(f"({c['id']} {ty_sexp(c['type'], env)} {osx})")
+        ext = "-" if t.get("ext") is None else str(t["ext"])
+        return f"({k} {tg} {ext} ({' '.join(comps)}))"
+    if k in ("SEQUENCE OF", "SET OF"):
+        return f"({'SEQOF' if k == 'SEQUENCE OF' else 'SETOF'} {tg} {_cons_sx(t.get('size'))} {ty_sexp(t['elem'], env)})"
+    raise ValueError(k)
+
+def module_sexp(m):
+    env = dict(m["types"])
+    return "(module %s %s)" % (m.get("tagdefault") or "none", " ".join(f"({n} {ty_sexp(t, env)})" for n, t in m["types"]))
+
+def val_pos_sexp(t, v, env):
+    """positional value syntax of the Lean L2 model"""
+    k = t["k"]
+    if k == "REF": return val_pos_sexp(env[t["name"]], v, env)
+    if k in ("SEQUENCE", "SET"):
+        return "(seq" + "".join(" " + (val_pos_sexp(c["type"], v[c["id"]], env) if c["id"] in v else "-") for c in t["comps"]) + ")"
+    if k == "CHOICE":
+        i = next(i for i, c in enumerate(t["comps"]) if c["id"] == v[0])
+        return "(choice %d %s)" % (i, val_pos_sexp(t["comps"][i]["type"], v[1], env))
+    if k in ("SEQUENCE OF", "SET OF"):
+        return "(list" + "".join(" " + val_pos_sexp(t["elem"], x, env) for x in v) + ")"
+    if k == "ENUMERATED": return "(int %d)" % v
+    return val_sexp(t, v, env).replace("(oid ", "(os ")
+
+def pos_to_named(t, sx, env):
+    """convert a parsed positional value (Lean output) into the named form dumped by the C driver"""
+    k = t["k"]
+    if k == "REF": return pos_to_named(env[t["name"]], sx, env)
+    if not isinstance(sx, list): return sx
+    if k in ("SEQUENCE", "SET") and sx and sx[0] == "seq":
+        out = ["seq" if k == "SEQUENCE" else "set"]
+        for c, x in zip(t["comps"], sx[1:]):
+            if x == "-": continue
+            out.append([c["id"], pos_to_named(c["type"], x, env)])
+        return out
+    if k == "CHOICE" and sx and sx[0] == "choice":
+        c = t["comps"][int(sx[1])]
+        return ["choice", c["id"], pos_to_named(c["type"], sx[2], env)]
+    if k in ("SEQUENCE OF", "SET OF") and sx and sx[0] == "list":
+        return ["list"] + [pos_to_named(t["elem"], x, env) for x in sx[1:]]
+    if k == "ENUMERATED" and sx and sx[0] == "int": return ["enum", sx[1]]
+    if k in ("OBJECT IDENTIFIER", "RELATIVE-OID") and sx and sx[0] == "os": return ["oid", sx[1]]
+    return sx
